@@ -5,6 +5,7 @@
    b0 in 2..62, n >= 0, d in -1..1 (any small long), base in 2..62.  The operand is built with mpz_ui_pow_ui. */
 #include "harness.h"
 #include "gmp-impl.h"
+#include "longlong.h"
 #define NEED(c) do { if (!(c)) return -1; } while (0)
 
 static int op_mpz_sizeinbase_shape(int argc, tok_t *a, out_t *o) {
